@@ -379,6 +379,12 @@ pub fn exec(plan: &Plan) -> Outcome {
         }));
         if r.is_err() {
             let msg = crate::take_last_panic().unwrap_or_else(|| "panic".into());
+            if plan.property == "C12" && !msg.starts_with("VERIF-JUDGE|") {
+                out.desync = Some(format!("search failed in the baseline: {}", msg.chars().take(160).collect::<String>()));
+                out.stats = stats;
+                out.oracle_evals = 1;
+                return out;
+            }
             let (class, detail) = classify_panic(&plan.property, &msg);
             out.violation = Some(Violation {
                 class: format!("{}/in-baseline", class),
@@ -486,6 +492,13 @@ pub fn exec(plan: &Plan) -> Outcome {
         if replaying && (msg.contains("scheduled task is not runnable") || msg.contains("schedule")) && !msg.starts_with("VERIF-JUDGE|") {
             // the recorded schedule does not fit this code (different synchronisation pattern)
             out.desync = Some(format!("replayed schedule does not fit: {}", msg.chars().take(120).collect::<String>()));
+            out.stats = stats;
+            out.oracle_evals = 1;
+            return out;
+        }
+        if plan.property == "C12" && !msg.starts_with("VERIF-JUDGE|") {
+            // C12 judges representation invariants only; a panicking or deadlocking search is C07/C09's subject
+            out.desync = Some(format!("search failed under the scheduler: {}", msg.chars().take(160).collect::<String>()));
             out.stats = stats;
             out.oracle_evals = 1;
             return out;
